@@ -15,7 +15,7 @@ def run(tier: str) -> int:
     rr.shuffle(scs)
     cap = 5000 if tier == "quick" else 60000
     scns = [{"id": f"m{i}", "notes": s["notes"], "v": s["v"], "h": s["h"], "jack": s["jack"],
-             "filters": drv.pick_filters(rr, tier), "via_lists": i % 5 == 0} for i, s in enumerate(scs[:cap])]
+             "filters": drv.pick_filters(rr, tier), "via_lists": i % 5 == 0, "regroup": i % 4 == 2} for i, s in enumerate(scs[:cap])]
     scns += drv.random_scenarios(800 if tier == "quick" else 12000, tier)
     recs = pmap(drv.exec_ptn, scns)
     rejects, consumed, wall = validate_traces("PatternTrace", "PatternTrace", recs, tag=f"c20-{tier}")
